@@ -84,6 +84,10 @@ impl FromUntyped for JSONMLValue {
 impl ManifestFormat for XmlJsonmlFormat {
 	fn manifest_buf(&self, val: Val, buf: &mut String) -> Result<()> {
 		let val = JSONMLValue::from_untyped(val).with_description(|| "parsing JSONML value")?;
+		if matches!(val, JSONMLValue::String(_)) {
+			// Strings are only allowed as children of a tag
+			bail!("expected a JSONML value (an array), got string");
+		}
 		manifest_jsonml(&val, buf, self)
 	}
 }
